@@ -133,6 +133,8 @@ pub struct Interpreter<'a, R: RealNumberInternalTrait> {
     pub env: Rc<Environment<R>>,
     lib_loader: LibraryLoader<'a, R>,
     imported_library: HashSet<LibraryName>,
+    // libraries already evaluated by this interpreter: every import refers to one instance
+    library_instances: HashMap<LibraryName, Library<R>>,
     import_end: bool, // indicate program's import declaration part end
     // syntax defined by the programs this interpreter evaluated (per interpreter, not per thread)
     syntax_env: Rc<LexicalScope<Transformer>>,
@@ -152,6 +154,7 @@ impl<'a, R: RealNumberInternalTrait> Interpreter<'a, R> {
             env: environment,
             lib_loader: LibraryLoader::default(),
             imported_library: HashSet::new(),
+            library_instances: HashMap::new(),
             import_end: false,
             syntax_env: new_syntax_environment(),
             program_directory: None,
@@ -181,6 +184,9 @@ impl<'a, R: RealNumberInternalTrait> Interpreter<'a, R> {
             .extend(lib_loader.lib_factories.into_iter());
     }
     pub fn register_library_factory(&mut self, library_factory: LibraryFactory<'a, R>) {
+        // a new definition of a library replaces the instance made from the old one
+        self.library_instances
+            .remove(library_factory.get_library_name());
         self.lib_loader.register_library_factory(library_factory);
     }
 
@@ -518,6 +524,9 @@ impl<'a, R: RealNumberInternalTrait> Interpreter<'a, R> {
         }
     }
     pub fn get_library(&mut self, name: Located<LibraryName>) -> Result<Library<R>> {
+        if let Some(instance) = self.library_instances.get(name.deref()) {
+            return Ok(instance.clone());
+        }
         let factory = match self.lib_loader.lib_factories.get(&name) {
             Some(factory) => factory,
             None => {
@@ -529,7 +538,10 @@ impl<'a, R: RealNumberInternalTrait> Interpreter<'a, R> {
             }
         }
         .clone();
-        self.new_library(&factory)
+        let library = self.new_library(&factory)?;
+        self.library_instances
+            .insert(name.deref().clone(), library.clone());
+        Ok(library)
     }
     pub fn eval_import_set(&mut self, import: &ImportSet) -> Result<Vec<(String, Value<R>)>> {
         match &import.data {
